@@ -328,7 +328,7 @@ def corr_means(rng, ncases, kinds=None, nmax=4):
         mc = rand_mesh(rng, kind, nmax=nmax)
         name = names[(t // len(kinds or KINDS)) % len(names)]
         mode = rng.choice(["pos", "mixed", "zeros", "ints"])
-        vals = rand_vals(rng, mc.gshape(), mode)
+        vals = rand_vals(rng, mc.gshape(), mode) * (2.0 ** rng.choice([0, 0, 0, -40, -30, 20, 40]))
         phi = pf.CellVariable(mc.m, vals.copy())
         case = {"mean": name, "mesh": mc.describe(), "cell": vals.tolist()}
         payload = [qs(vals)]
